@@ -219,7 +219,7 @@ def targetOf : Option GPath → String
   | some p => p.target
 
 /-- `*gnmi.SubscriptionList`: prefix and the paths of the subscriptions (`none` = a
-subscription whose `GetPath()` is nil: skipped). -/
+subscription whose `GetPath()` is nil: the prefix itself). -/
 structure SubList where
   pfx : Option GPath := none
   subs : List (Option GPath) := []
@@ -233,9 +233,16 @@ def originElem (pfx : Option GPath) (p : GPath) : List String :=
 def subscriptionQuery (pfx : Option GPath) (p : GPath) : Path :=
   toStrings pfx true ++ (originElem pfx p ++ p.idx)
 
-/-- the queries `addSubscription` registers, in order (nil paths skipped) -/
+/-- the query for a subscription whose path may be nil: `GetOrigin()` and `ToStrings` are
+nil-safe, so a nil path registers the prefix itself (everything below it), exactly what the
+initial walk completes it to -/
+def subscriptionQueryOpt (pfx : Option GPath) : Option GPath → Path
+  | none => toStrings pfx true
+  | some p => subscriptionQuery pfx p
+
+/-- the queries `addSubscription` registers, in order -/
 def subscriptionQueries (s : SubList) : List Path :=
-  s.subs.filterMap (fun p => p.map (subscriptionQuery s.pfx))
+  s.subs.map (subscriptionQueryOpt s.pfx)
 
 /-- `path.CompletePath(prefix, path)`; `none` = error -/
 def completePath (pfx p : Option GPath) : Option Path :=
